@@ -159,15 +159,17 @@ func extType(t rt.TypeRef) string {
 // progRender renders one directive function and collects the out-of-line
 // declarations it needs.
 type progRender struct {
-	s        *rt.Spec
-	n        names
-	argK     int
-	bareK    int
-	poison   []string
-	lastBare string
-	pre      []string // statements before the directive (func vars, holders)
-	decls    []string // package-level declarations in the program file
-	extFns   []string // functions to add to package ext
+	s            *rt.Spec
+	n            names
+	argK         int
+	bareK        int
+	poison       []string
+	lastBare     string
+	methK        int
+	holdPoisoned bool
+	pre          []string // statements before the directive (func vars, holders)
+	decls        []string // package-level declarations in the program file
+	extFns       []string // functions to add to package ext
 }
 
 var reIdent = regexp.MustCompile(`^[A-Za-z_][A-Za-z0-9_]*$`)
@@ -180,6 +182,20 @@ func (pr *progRender) wrap(expr string) string { return pr.wrapz(expr, "") }
 // that reads a bare identifier late (instead of once, in source order)
 // delivers the poison instead of the value.
 func (pr *progRender) wrapz(expr, zero string) string {
+	if !pr.s.Wrap && pr.s.Bare && strings.HasPrefix(expr, "hold.M_") {
+		// every other method value stays written as a selector on the plain
+		// variable hold, which the last argument expression sets to nil: a
+		// generator that evaluates the method value when the task runs
+		// (instead of once, in source order) then binds a nil receiver
+		pr.methK++
+		if pr.methK%2 == 1 {
+			if !pr.holdPoisoned {
+				pr.holdPoisoned = true
+				pr.poison = append(pr.poison, "hold = nil")
+			}
+			return expr
+		}
+	}
 	if !pr.s.Wrap && pr.s.Bare && !reIdent.MatchString(expr) && !strings.HasPrefix(expr, "&") {
 		if zero != "" {
 			defer func() { pr.poison = append(pr.poison, pr.lastBare+" = "+zero) }()
@@ -209,6 +225,22 @@ func (pr *progRender) wrapz(expr, zero string) string {
 }
 
 func (pr *progRender) typ(t rt.TypeRef) string {
+	return t.Go()
+}
+
+// typIn is typ for the parameter of a consuming function: with AltSpell an
+// unnamed function type is written with different parameter names, which is
+// the identical type in another spelling.
+func (pr *progRender) typIn(t rt.TypeRef) string {
+	if pr.s.AltSpell && t.K == "F" {
+		switch t.I {
+		case 1:
+			return "func() (tag uint64)"
+		case 2:
+			return "func(n int) uint64"
+		}
+		return "func(string, string) uint64"
+	}
 	return t.Go()
 }
 
@@ -461,7 +493,7 @@ func (pr *progRender) render() string {
 			opts = append(opts, func() string {
 				var ins, outs, eins, eouts []string
 				for k, in := range ts.In {
-					ins = append(ins, fmt.Sprintf("a%d %s", k, pr.typ(in)))
+					ins = append(ins, fmt.Sprintf("a%d %s", k, pr.typIn(in)))
 					if ts.Sp == "imported" {
 						eins = append(eins, fmt.Sprintf("a%d %s", k, extType(in)))
 					}
@@ -486,7 +518,7 @@ func (pr *progRender) render() string {
 						var pins, pargs []string
 						for k, in := range ts.Pred.In {
 							_, tg := pHelpers(in)
-							pins = append(pins, fmt.Sprintf("a%d %s", k, pr.typ(in)))
+							pins = append(pins, fmt.Sprintf("a%d %s", k, pr.typIn(in)))
 							pargs = append(pargs, fmt.Sprintf("%s(a%d)", tg, k))
 						}
 						body := []string{fmt.Sprintf("return env.Pred(%d, %s%s)", ts.Pred.Unit, ctxArg(ts.Pred.Ctx), prefixComma(pargs))}
